@@ -165,14 +165,14 @@ macro_rules! step_s { ($($name:ident $rv:expr, $o:expr, $sc:expr);*) => { $(
     #[kani::stub(std::vec::Vec::resize, crate::models::vec_resize)]
     pub fn $name() { step_core::<$rv, $o, 3>(Some($sc)) } )* } }
 // Scripted source: every read outcome of the poll is CONCRETE (payload and stale bytes stay symbolic), so the
-// control flow folds and a poll may complete up to three reads.  quick: 8 (state, script) pairs where progress
+// control flow folds and a poll may complete up to three reads.  quick: 4 (state, script) pairs where progress
 // made inside one poll is followed by an interruption; thorough: every [data, x] script from every state and
 // the one-byte-at-a-time scripts [k1, k1, x].
-step_s!(c15_q_s_rl0_k1_p false, 0, [2, 0, 0];
-        c15_q_s_rl2_kx_e false, 2, [3, 1, 0];
-        c15_q_s_rl3_k1_p false, 3, [2, 0, 0];
+step_s!(c15_t_s_rl0_k1_p false, 0, [2, 0, 0];
+        c15_t_s_rl2_kx_e false, 2, [3, 1, 0];
+        c15_t_s_rl3_k1_p false, 3, [2, 0, 0];
         c15_q_s_rl3_kx_e false, 3, [3, 1, 0];
-        c15_q_s_rl4_k1_p false, 4, [2, 0, 0];
+        c15_t_s_rl4_k1_p false, 4, [2, 0, 0];
         c15_q_s_rv0_k1_p true, 0, [2, 0, 0];
         c15_q_s_rv0_k1_e true, 0, [2, 1, 0];
         c15_q_s_rv1_k1_z true, 1, [2, 4, 0]);
